@@ -111,7 +111,19 @@ def run(ctx):
         if not parts:
             parts = [x]
         r = rng.random()
-        if r < 0.1:
+        lookalike = None
+        if rng.random() < 0.12:
+            # look-alike letters are different letters: a role spelled with the fullwidth (or ASCII)
+            # counterparts of X's letters is another role
+            FW = {chr(c): chr(c - 0x41 + 0xFF21) for c in range(0x41, 0x5B)}
+            FW.update({chr(c): chr(c - 0x61 + 0xFF41) for c in range(0x61, 0x7B)})
+            BACK = {v: k for k, v in FW.items()}
+            lk = ''.join(FW.get(ch, BACK.get(ch, ch)) for ch in x)
+            if lk != x:
+                lookalike = lk
+        if lookalike is not None:
+            creds = {'roles': [lookalike] + nm[:1], 'user_id': 'u'}
+        elif r < 0.1:
             creds = {}
         elif r < 0.2:
             creds = {'roles': []}
